@@ -106,8 +106,6 @@ func verifH_C16_slots() {
 		return
 	}
 	before, _, resolved := verifSlotValue(doc, kind)
-	wholeFile := !strings.Contains(ref, "#")
-	verifKnown("C16-top-level-whole-file-component-self-reference", wholeFile && (kind == "responses" || kind == "headers" || kind == "examples" || kind == "links" || kind == "securitySchemes"))
 
 	verifC16Check(doc, "slot")
 	after, _, _ := verifSlotValue(doc, kind)
